@@ -7,7 +7,6 @@ import os
 
 import c05
 import common
-import replica_gen as RG
 from common import Rng
 
 PROP_FILES = ["theories/Properties/C03.v"]
@@ -181,29 +180,6 @@ def coverage_gaps(cov):
     return gaps
 
 
-def prescreened_cases(n, rng, opts):
-    """Generates the scenarios and unwraps the crash operations whose proposal misses its deadline
-    (implementation result MissingPreviousPayload, no crash point reached in the proposal itself).
-    For these the model (run_op: OpCrash cuts the effects of rstep_t = proposal + follow-up view
-    timer) and the harness (replica.rs disarms the injected crash before it fires the follow-up
-    timer) currently disagree on whether the timer's persist is a crash point of the operation;
-    a crash at the persist of a view timer is covered by the crash-on-timer operations instead.
-    Returns (cases, number of crash operations unwrapped)."""
-    cases = [RG.gen_case(rng.fork(), opts) for _ in range(n)]
-    RG.normalize_orders(cases)
-    outs = common.run_impl("replica", [RG.strip(c) for c in cases], "dev")
-    unwrapped = 0
-    for c, o in zip(cases, outs):
-        if "obs" not in o:
-            continue
-        for i, op in enumerate(c["ops"]):
-            ob = o["obs"][i + 1] if i + 1 < len(o["obs"]) else [9]
-            if op["t"] == "crash" and op["k"] == 0 and ob != [9] and ob[0] == [2, [9]]:
-                c["ops"][i] = op["op"]
-                unwrapped += 1
-    return cases, unwrapped
-
-
 OPTS = {"crash": True, "extreme": False, "crash_targets": (1, 3), "crash_more": (1, 4)}
 
 RULE = ("scenarios as in C05 (one replica among 1-7 validators, a puppet network walking the views through commit and "
@@ -228,22 +204,10 @@ def run(rep):
     opts = dict(OPTS, rounds=6 if tier == "quick" else 10)
     # VERIF_C03_N: smaller scenario count for the mutation self-test (short mutation windows)
     n = int(os.environ.get("VERIF_C03_N") or (90 if tier == "quick" else 1200))
-    for b in ("qc", "replica"):
-        ok, out = common.cargo_build([b], "dev")
-        if not ok:
-            raise common.MachineryError("cargo build failed: " + out[-2000:])
-    pre, unwrapped = prescreened_cases(n, rng, opts)
-    feed = iter(pre)
-    orig_gen = RG.gen_case
-    RG.gen_case = lambda _rng, _opts: next(feed)
-    try:
-        R = c05.run_replica_cases(rep, "C03", opts, n, rng, broken, extra_pred=extra_pred)
-    finally:
-        RG.gen_case = orig_gen
+    R = c05.run_replica_cases(rep, "C03", opts, n, rng, broken, extra_pred=extra_pred)
     cov = crash_coverage(R["cases"], R["outs"])
     gaps = coverage_gaps(cov)
     c05.report(rep, "C03", po, R, broken, RULE)
-    cov["crash_ops_unwrapped_missed_deadline"] = unwrapped
     rep.cov["crash_coverage"] = cov
     rep.cov["partial"] = ("theorems are over the model with overflow checks on (cchk = true; with wrapping arithmetic a Byzantine quorum at "
                           "view u64::MAX rewinds the view: Example C03_needs_overflow_checks); a torn set_state (H-ENG) and a message "
